@@ -138,3 +138,203 @@ Proof.
   cbn [b_map] in M1, M2, M3.
   repeat split; auto. rewrite Hs. unfold broker0. now rewrite preinit_sess.
 Qed.
+
+(** ** The dealer half *)
+Definition idle_dealer (d : dealer) : Prop :=
+  forall id rg, nget (d_regs d) id = Some rg -> reg_callees rg = [meta_id].
+
+Lemma dmap_ids_spec : forall d k id, regs_core d ->
+    (In id (map snd (d_map d k)) <-> exists rg, nget (d_regs d) id = Some rg /\ reg_kind rg = k).
+Proof.
+  intros d k id W. split.
+  - intros H. apply in_map_iff in H. destruct H as ([p id'] & E & Hin). cbn in E. subst id'.
+    apply In_sget in Hin; [|apply (rw_mapkeys d W)].
+    destruct (rw_map d W k p id Hin) as (rg & Hr & _ & Hk). eauto.
+  - intros (rg & Hr & Hk). destruct (rw_reg d W id rg Hr) as (_ & Hm & _). rewrite Hk in Hm.
+    apply sget_In in Hm. apply in_map_iff. exists (reg_proc rg, id). auto.
+Qed.
+
+Lemma dmap_ids_NoDup : forall d k, regs_core d -> NoDup (map snd (d_map d k)).
+Proof.
+  intros d k W. apply NoDup_map_on.
+  - assert (ND : NoDup (map fst (d_map d k))) by apply (rw_mapkeys d W).
+    clear -ND. induction (d_map d k) as [|[t i] l IH]; [constructor|].
+    cbn in ND. inversion ND as [|? ? Hn ND']; subst. constructor; [|now apply IH].
+    intros H. apply Hn. apply in_map_iff. exists (t, i). auto.
+  - intros [t1 i1] [t2 i2] H1 H2 E. cbn in E. subst i2.
+    apply In_sget in H1; [|apply (rw_mapkeys d W)]. apply In_sget in H2; [|apply (rw_mapkeys d W)].
+    destruct (rw_map d W k t1 i1 H1) as (r1 & Hr1 & Ht1 & _).
+    destruct (rw_map d W k t2 i1 H2) as (r2 & Hr2 & Ht2 & _).
+    assert (r1 = r2) by congruence. subst. reflexivity.
+Qed.
+
+Lemma idle_reg_agree : forall d0 d id k,
+    idle_dealer d -> meta_regs_same d0 d ->
+    ((exists rg, nget (d_regs d) id = Some rg /\ reg_kind rg = k) <->
+     (exists rg, nget (d_regs d0) id = Some rg /\ reg_kind rg = k)).
+Proof.
+  intros d0 d id k I [A B]. split.
+  - intros (rg & Hr & Hk).
+    assert (Hin : In meta_id (reg_callees rg)) by (rewrite (I id rg Hr); now left).
+    pose proof (B id rg Hr Hin) as H0. destruct (nget (d_regs d0) id) as [rg0|] eqn:E0; [|congruence].
+    destruct (A id rg0 E0) as (rg' & Hr' & _ & Hm & _). assert (rg' = rg) by congruence. subst rg'.
+    exists rg0. split; [reflexivity|]. unfold reg_kind in *. congruence.
+  - intros (rg0 & H0 & Hk). destruct (A id rg0 H0) as (rg & Hr & _ & Hm & _).
+    exists rg. split; [exact Hr|]. unfold reg_kind in *. congruence.
+Qed.
+
+Lemma idle_callee_regs_length : forall lk d,
+    dealer_wf lk d -> idle_dealer d -> cr_nonempty (d_callee_regs d) ->
+    (List.length (d_callee_regs d) <= 1)%nat ->
+    List.length (d_callee_regs d) = match d_regs d with [] => 0%nat | _ => 1%nat end.
+Proof.
+  intros lk d W I Hne Hle. destruct (d_regs d) as [|[id rg] l] eqn:E.
+  - destruct (d_callee_regs d) as [|[x ids] l'] eqn:Ec; [reflexivity|]. exfalso.
+    rewrite <- Ec in Hne.
+    assert (Hx : nget (d_callee_regs d) x = Some ids) by (rewrite Ec; cbn; now rewrite N.eqb_refl).
+    pose proof (Hne x ids Hx) as Hn. destruct ids as [|i ids]; [congruence|].
+    assert (Hin : In i (callee_reg_ids d x)) by (unfold callee_reg_ids; rewrite Hx; now left).
+    apply (wf_cr _ _ W x i) in Hin. destruct Hin as (rg & Hr & _). rewrite E in Hr. discriminate.
+  - assert (Hr : nget (d_regs d) id = Some rg) by (rewrite E; cbn; now rewrite N.eqb_refl).
+    assert (Hin : In id (callee_reg_ids d meta_id)).
+    { apply (wf_cr _ _ W meta_id id). exists rg. split; [exact Hr|]. rewrite (I id rg Hr). now left. }
+    unfold callee_reg_ids in Hin. destruct (d_callee_regs d) as [|a l']; [destruct Hin|]. cbn in *. lia.
+Qed.
+
+Theorem idle_dealer_sizes : forall lk0 lk d0 d,
+    dealer_wf lk0 d0 -> dealer_wf lk d -> idle_dealer d0 -> idle_dealer d -> meta_regs_same d0 d ->
+    cr_nonempty (d_callee_regs d0) -> cr_nonempty (d_callee_regs d) ->
+    (List.length (d_callee_regs d0) <= 1)%nat -> (List.length (d_callee_regs d) <= 1)%nat ->
+    (forall k, List.length (d_map d k) = List.length (d_map d0 k)) /\
+    List.length (d_regs d) = List.length (d_regs d0) /\
+    List.length (d_callee_regs d) = List.length (d_callee_regs d0).
+Proof.
+  intros lk0 lk d0 d W0 W I0 I H N0 N1 L0 L1.
+  pose proof (wf_regs _ _ W0) as C0. pose proof (wf_regs _ _ W) as C.
+  assert (Hregs : List.length (d_regs d) = List.length (d_regs d0)).
+  { rewrite <- (map_length fst (d_regs d)), <- (map_length fst (d_regs d0)).
+    apply NoDup_same_length; [apply (rw_regkeys d C)|apply (rw_regkeys d0 C0)|].
+    intros id. split; intros Hin; apply keys_nget in Hin; destruct Hin as (rg & Hr).
+    - assert (E : exists rg', nget (d_regs d) id = Some rg' /\ reg_kind rg' = reg_kind rg) by eauto.
+      apply (idle_reg_agree d0 d id _ I H) in E. destruct E as (rg0 & H0 & _). eapply nget_Some_keys; eauto.
+    - assert (E : exists rg', nget (d_regs d0) id = Some rg' /\ reg_kind rg' = reg_kind rg) by eauto.
+      apply (idle_reg_agree d0 d id _ I H) in E. destruct E as (rg1 & H1 & _). eapply nget_Some_keys; eauto. }
+  split; [|split; [exact Hregs|]].
+  - intros k. rewrite <- (map_length snd (d_map d k)), <- (map_length snd (d_map d0 k)).
+    apply NoDup_same_length; try (apply dmap_ids_NoDup; assumption).
+    intros id. rewrite !dmap_ids_spec by assumption. now apply idle_reg_agree.
+  - rewrite (idle_callee_regs_length lk d W I N1 L1), (idle_callee_regs_length lk0 d0 W0 I0 N0 L0).
+    destruct (d_regs d), (d_regs d0); cbn in Hregs; try reflexivity; discriminate.
+Qed.
+
+(** ** [step] never changes the configuration *)
+Lemma meta_call_cfg : forall r proc det args kw oracle,
+    r_cfg (realm_of (meta_call r proc det args kw oracle)) = r_cfg r.
+Proof.
+  intros. destruct (meta_call_cases r proc det args kw oracle) as [E|[(sid & s & dd & F & Hm & E)|(c & p & Ec & [E|E])]];
+    cbv zeta in E; rewrite E; try reflexivity.
+  apply update_session_frame.
+Qed.
+
+Lemma leave_cfg : forall r sid, r_cfg (fst (leave r sid)) = r_cfg r.
+Proof. intros. apply leave_frame. Qed.
+
+Lemma meta_publish_all_cfg : forall r mps, r_cfg (fst (meta_publish_all r mps)) = r_cfg r.
+Proof. intros. apply (meta_publish_all_frame mps r). Qed.
+
+Lemma run_meta_invocation_cfg : forall r o oracle, r_cfg (fst (run_meta_invocation r o oracle)) = r_cfg r.
+Proof.
+  intros r o oracle. unfold run_meta_invocation.
+  destruct o as [|[rcv m] l]; [reflexivity|]. destruct m; try reflexivity. destruct l; [|reflexivity].
+  destruct (negb (rcv =? meta_id)); [reflexivity|].
+  destruct (nget (r_metaprocs r) reg) as [proc|].
+  - pose proof (meta_call_cfg r proc details args kw oracle) as C.
+    destruct (meta_call r proc details args kw oracle) as [[r1 resp] kills]. unfold realm_of in C. cbn [fst] in C.
+    destruct (match resp with MYield a k => _ | MError e => _ end) as [d o1].
+    destruct kills as [[sids g]|]; [|exact C].
+    destruct (kill_sessions_exact sids (r_set_dealer r1 d) g) as (_ & _ & K & _). cbv zeta in K.
+    destruct (kill_sessions (r_set_dealer r1 d) sids g). cbn [fst] in *. rewrite K. exact C.
+  - destruct (sync_error _ _ _ _ _ _ _). reflexivity.
+Qed.
+
+Lemma handle_cfg : forall r s m oracle, r_cfg (fst (handle r s m oracle)) = r_cfg r.
+Proof.
+  intros r s m oracle. destruct m; cbn [handle].
+  - destruct (publish _ _ _ _ _ _ _ _ _ _ _) as [[b pg] o]. reflexivity.
+  - destruct (subscribe _ _ _ _ _ _ _) as [[b pg] o]. reflexivity.
+  - destruct (unsubscribe _ _ _ _ _) as [[b pg] o]. reflexivity.
+  - destruct (register _ _ _ _ _ _) as [[d o] mps].
+    pose proof (meta_publish_all_cfg (r_set_dealer r d) mps) as C. destruct (meta_publish_all _ mps). exact C.
+  - destruct (unregister _ _ _ _) as [[d o] mps].
+    pose proof (meta_publish_all_cfg (r_set_dealer r d) mps) as C. destruct (meta_publish_all _ mps). exact C.
+  - destruct (call _ _ _ _ _ _ _ _ _ _ _) as [d o|o|d callee o].
+    + reflexivity.
+    + pose proof (leave_cfg r (s_id s)) as C. destruct (leave r (s_id s)). exact C.
+    + rewrite run_meta_invocation_cfg. destruct (update_session_frame (r_set_dealer r d) callee) as (E & _). exact E.
+  - destruct (cancel _ _ _ _ _). reflexivity.
+  - destruct (sync_yield _ _ _ _ _ _). reflexivity.
+  - destruct (negb (ty =? c_INVOCATION)).
+    + pose proof (leave_cfg r (s_id s)) as C. destruct (leave r (s_id s)). exact C.
+    + destruct (sync_error _ _ _ _ _ _ _). reflexivity.
+  - pose proof (leave_cfg r (s_id s)) as C. destruct (leave r (s_id s)). exact C.
+  - pose proof (leave_cfg r (s_id s)) as C. destruct (leave r (s_id s)). exact C.
+Qed.
+
+Theorem step_cfg : forall r o, r_cfg (fst (step r o)) = r_cfg r.
+Proof.
+  intros r o. destruct o as [sid l h|sid m oracle|sid|ms].
+  - cbn [step]. unfold join. destruct (negb (has_role h) || _); [reflexivity|].
+    match goal with |- r_cfg (fst (meta_publish ?R ?M)) = _ => apply (meta_publish_frame R M) end.
+  - rewrite step_msg_eq. destruct (find_session (r_clients r) sid); [|reflexivity].
+    destruct (gate r s m); [apply handle_cfg|reflexivity].
+  - apply leave_cfg.
+  - cbn [step]. destruct (fire_timers _ _ _). reflexivity.
+Qed.
+
+Lemma run_cfg : forall ops r, r_cfg (fst (run r ops)) = r_cfg r.
+Proof.
+  induction ops as [|o ops IH] using rev_ind; intros r; [reflexivity|].
+  rewrite run_app1, step_cfg. apply IH.
+Qed.
+
+(** ** empty_when_idle *)
+Lemma init_realm_parts : forall cfg,
+    r_cfg (init_realm cfg) = cfg /\ r_clients (init_realm cfg) = [] /\
+    r_broker (init_realm cfg) = broker0 cfg /\ r_dealer (init_realm cfg) = dealer0 cfg.
+Proof.
+  intros cfg. unfold init_realm, dealer0, broker0.
+  change (fold_left _ (meta_proc_names cfg) (empty_dealer, [])) with (fold_left (init_f cfg) (meta_proc_names cfg) (empty_dealer, [])).
+  destruct (fold_left (init_f cfg) (meta_proc_names cfg) (empty_dealer, [])) as [d procs]. cbn. auto.
+Qed.
+
+Theorem idle_sizes : forall r0 r,
+    realm_wf r0 -> realm_wf r -> r_clients r0 = [] -> r_clients r = [] ->
+    r_broker r0 = broker0 (r_cfg r) -> r_dealer r0 = dealer0 (r_cfg r) ->
+    sizes r = sizes r0.
+Proof.
+  intros r0 r W0 W C0 C Eb Ed.
+  destruct (empty_when_idle_partial r0 W0 C0) as (T0 & S0 & Ca0 & By0 & In0 & L0 & Ib0 & Id0).
+  destruct (empty_when_idle_partial r W C) as (T1 & S1 & Ca1 & By1 & In1 & L1 & Ib1 & Id1).
+  pose proof (rw_hist r W) as Hh. rewrite <- Eb in Hh.
+  pose proof (rw_metaregs r W) as Hm. rewrite <- Ed in Hm.
+  destruct (idle_broker_sizes (r_broker r0) (r_broker r) (rw_broker r0 W0) (rw_broker r W) Ib0 Ib1 Hh) as (Bm & Bs & Bh).
+  destruct (idle_dealer_sizes (lookup r0) (lookup r) (r_dealer r0) (r_dealer r) (rw_dealer r0 W0) (rw_dealer r W)
+                              Id0 Id1 Hm (rw_cr_nonempty r0 W0) (rw_cr_nonempty r W) L0 L1) as (Dm & Dr & Dc).
+  pose proof (Bm MExact) as B1. pose proof (Bm MPrefix) as B2. pose proof (Bm MWildcard) as B3.
+  pose proof (Dm MExact) as D1. pose proof (Dm MPrefix) as D2. pose proof (Dm MWildcard) as D3.
+  cbn [b_map d_map] in *.
+  unfold sizes. rewrite C, C0, T0, T1, S0, S1, Ca0, Ca1, By0, By1, In0, In1, B1, B2, B3, Bs, Bh, D1, D2, D3, Dr, Dc.
+  reflexivity.
+Qed.
+
+Theorem empty_when_idle : forall cfg ops,
+    Forall op_ok ops -> k0 cfg + N.of_nat (List.length ops) <= max_idN ->
+    r_clients (fst (run (init_realm cfg) ops)) = [] ->
+    sizes (fst (run (init_realm cfg) ops)) = sizes (init_realm cfg).
+Proof.
+  intros cfg ops Ho Hk Hc.
+  destruct (init_realm_wf cfg) as [W0 _]; [lia|].
+  pose proof (reachable_realm_wf cfg ops Ho Hk) as W.
+  destruct (init_realm_parts cfg) as (E1 & E2 & E3 & E4).
+  apply idle_sizes; auto; rewrite run_cfg, E1; assumption.
+Qed.
